@@ -14,6 +14,20 @@ type c09Case struct {
 	ID      string `json:"id"`
 	Variant string `json:"variant"`
 	Role    string `json:"list"` // license | exception
+	// Rel: instead of the standard contexts, the id is set against its name relatives (range-table ids
+	// whose text is a prefix of it) carrying each listed exception, as term and as allowed entry
+	Rel bool `json:"name_relative_contexts,omitempty"`
+}
+
+func c09RelContexts(id string) []c09Ctx {
+	var l []c09Ctx
+	for _, m := range nameRelatives(id) {
+		for _, e := range T().Exceptions {
+			l = append(l, c09Ctx{"allowed entry vs name relative " + m + " WITH " + e, m + " WITH " + e, []string{hole}},
+				c09Ctx{"term vs name relative " + m + " WITH " + e, hole, []string{m + " WITH " + e}})
+		}
+	}
+	return l
 }
 
 type c09Ctx struct {
@@ -89,7 +103,11 @@ func c09Check(cs c09Case) (msg string, skipped bool, n int) {
 	if cs.Role == "license" {
 		neighbour = c09Neighbour(cs.ID)
 	}
-	for _, cx := range c09Contexts(cs.Role, neighbour) {
+	ctxs := c09Contexts(cs.Role, neighbour)
+	if cs.Rel {
+		ctxs = c09RelContexts(cs.ID)
+	}
+	for _, cx := range ctxs {
 		n++
 		o1 := c09Observe(cx, cs.ID, cs.ID)
 		o2 := c09Observe(cx, cs.Variant, cs.ID)
@@ -211,7 +229,7 @@ func init() {
 		ID:       "C09",
 		Title:    "letter case of listed ids never matters; output casing canonical",
 		Explorer: "E1 exhaustive id x case-variant x context enumeration, differential oracle against the canonical spelling",
-		Rule: "every id of the three lists x {lower, upper, swapped, every single-letter flip} (thorough: all 2^k variants for ids with <= 10 letters) x contexts {alone, with +, before/after WITH, inside a tree (loose and tight), as allowed entry against canonical / family neighbour+ / Zlib}; " +
+		Rule: "every id of the three lists x {lower, upper, swapped, every single-letter flip} (thorough: all 2^k variants for ids with <= 10 letters) x contexts {alone, with +, before/after WITH, inside a tree (loose and tight), as allowed entry against canonical / family neighbour+ / Zlib}; every id whose name starts with the text of a range-table id (GPL-2.0-with-GCC-exception, GPL-2.0-only ...) x {lower, upper, swapped} x that relative WITH every listed exception, as term and as allowed entry; " +
 			"state = (id, variant), transitions = 6 calls per context; only the listed-id portion is mutated; non-trivial = variants that differ from the canonical spelling (all of them) of ids with at least one letter",
 		Assumptions: []string{"only listed ids are case-mutated; operators, LicenseRef-/DocumentRef-, suffixes and reference names are left alone (outside the claim)"},
 		Run:         c09Run,
@@ -268,6 +286,46 @@ func c09Run(c *Ctx) {
 			return
 		}
 	}
+	// ids whose name starts with the text of a range-table id: lower / upper / swapped case against that
+	// relative WITH every listed exception
+	nrel := 0
+	for _, id := range t.AllLicenseIDs() {
+		if len(nameRelatives(id)) == 0 {
+			continue
+		}
+		nrel++
+		cv := caseVariants(id, 0)
+		if len(cv) > 3 {
+			cv = cv[:3]
+		}
+		for _, v := range cv {
+			idx++
+			if !c.Mine(idx) {
+				continue
+			}
+			if c.Expired() {
+				return
+			}
+			if !c.Begin("license " + id + " as " + v + " vs name relatives") {
+				continue
+			}
+			cs := c09Case{ID: id, Variant: v, Role: "license", Rel: true}
+			msg, skipped, n := c09Check(cs)
+			c.Inc("states")
+			c.Add("transitions", int64(6*n))
+			c.Add("traces", int64(6*n))
+			c.Inc("evaluations")
+			c.Inc("nontrivial")
+			if skipped {
+				c.Inc("contexts_skipped_panic")
+			}
+			c.Outcome("license-vs-name-relatives")
+			if msg != "" {
+				c.Report(Violation{Kind: "c09.variant", Class: "case-sensitive:license-vs-name-relative", Key: id + " as " + v + " (name relatives)", Msg: msg, Size: len(id) + 1, Case: mustJSON(cs)})
+			}
+		}
+	}
+	c.Bound("name_relative_contexts", map[string]any{"ids_with_name_relatives": nrel, "exceptions": len(t.Exceptions), "variants": "lower, upper, swapped"})
 	for _, id := range t.Exceptions {
 		if !do(id, "exception") {
 			return
